@@ -561,25 +561,27 @@ async fn run_case(c: &Value) -> Value {
         };
         *run.engine.0.crash.lock().unwrap() = crash;
         let mut res = run.input(ctx, inner).await;
+        let mut crashed = *run.engine.0.crashed.lock().unwrap();
+        let mut effects = run.take_log();
+        // after a missed proposal deadline the view timer is the next event; it belongs to the
+        // same step (Model.ReplicaRun.rstep_t), so an injected crash may also hit its persist
+        if !crashed && res == json!([2, [9]]) {
+            let r2 = run.input(ctx, &json!({"t": "timer"})).await;
+            effects.extend(run.take_log());
+            crashed = *run.engine.0.crashed.lock().unwrap();
+            if r2 != json!([0]) {
+                res = r2;
+            }
+        }
         *run.engine.0.crash.lock().unwrap() = None;
-        let crashed = *run.engine.0.crashed.lock().unwrap();
         if crashed {
-            let pre = run.take_log();
+            let pre = effects;
             let pre_not = run.notified();
             run.check_sent();
             run.replica = None;
             let restart = run.start_replica(ctx).await;
             obs.push(json!([[7], [pre, pre_not], restart[1], restart[2]]));
             continue;
-        }
-        let mut effects = run.take_log();
-        // after a missed proposal deadline the view timer is the next event
-        if res == json!([2, [9]]) {
-            let r2 = run.input(ctx, &json!({"t": "timer"})).await;
-            effects.extend(run.take_log());
-            if r2 != json!([0]) {
-                res = r2;
-            }
         }
         let notified = run.notified();
         run.check_sent();
